@@ -785,7 +785,10 @@ func (c *specCtx) call(x *SCall) Val {
 		return Val{S: vc.box(c.cur, v), Ty: types.NewInterfaceType(nil, nil), Sort: "Int"}
 	case "heapeq":
 		// heapeq(T.f): field f of every object of type T is unchanged since old
-		return c.heapEq(x)
+		return c.heapEq(x, false)
+	case "oldeq":
+		// oldeq(T.f): field f of every object of type T that was allocated at entry is unchanged since old
+		return c.heapEq(x, true)
 	case "sameExcept":
 		return c.sameExcept(x)
 	case "be64", "be32", "be16":
@@ -863,7 +866,7 @@ func (c *specCtx) oldEnv() map[string]Val {
 }
 
 // heapeq(T.f [, T.g ...]) : listed heap fields unchanged between old and current state
-func (c *specCtx) heapEq(x *SCall) Val {
+func (c *specCtx) heapEq(x *SCall, allocatedOnly bool) Val {
 	vc := c.vc
 	var parts []string
 	for _, a := range x.Args {
@@ -888,7 +891,11 @@ func (c *specCtx) heapEq(x *SCall) Val {
 				a1 := vc.heapGet(c.cur, key, es)
 				a0 := vc.heapGet(c.old, key, es)
 				if a1 != a0 {
-					parts = append(parts, fmt.Sprintf("(= %s %s)", a1, a0))
+					if allocatedOnly {
+						parts = append(parts, fmt.Sprintf("(forall ((r_oe Int)) (! (=> (select alloc0 r_oe) (= (select %s r_oe) (select %s r_oe))) :pattern ((select %s r_oe))))", a1, a0, a1))
+					} else {
+						parts = append(parts, fmt.Sprintf("(= %s %s)", a1, a0))
+					}
 				}
 			}
 		}
